@@ -235,7 +235,7 @@ def run(tier, seed):
     ck.extra['MAX_MESSAGE_SIZE'] = real_max
     if real_max != NP.MAX_MESSAGE_SIZE or real_max != 32 * 1024 * 1024:
         ck.violation('limit-changed', 'frame size limit is %r, documented 32 MiB' % real_max, {'max': real_max})
-    nstreams = 90 if tier == 'quick' else 400
+    nstreams = 90 if tier == 'quick' else 1600
     cases = []   # (maxsize, stream, chunks, kind)
     for maxsize in (6, real_max):
         for stream, kind in gen_streams(ck.rng, nstreams if maxsize == 6 else nstreams // 2, maxsize):
@@ -272,7 +272,7 @@ def run(tier, seed):
         RP.MAX_MESSAGE_SIZE = real_max
     # messages (real handle_message_data path): valid traffic cut 3 ways
     nmsg = 0
-    for _ in range(10 if tier == 'quick' else 60):
+    for _ in range(10 if tier == 'quick' else 240):
         msgs = []
         stream = b''
         for _ in range(ck.rng.choice([1, 2])):
